@@ -51,7 +51,6 @@ theorem readHead_depth (s : St) : (readHead s).1.isPanic = false ∧ (readHead s
     have key := readArg_depth (b.toNat % 32) { s with inp := rest }
     rcases h : readArg (b.toNat % 32) { s with inp := rest } with ⟨r, s'⟩
     rw [h] at key
-    simp only [h]
     cases r <;> (repeat' split) <;> simp_all [Res.isPanic]
 
 /-! ### generic composition lemmas -/
@@ -65,8 +64,10 @@ theorem good_bind {α β} (m : P α) (f : α → P β) (hm : Good m) (hf : ∀ a
   have h := hm s hs
   rcases hms : m s with ⟨r, s'⟩
   rw [hms] at h
+  dsimp only
+  rw [hms]
   cases r with
-  | ok a => simpa using hf a s' (h.2 rfl)
+  | ok a => exact hf a s' (h.2 rfl)
   | err e => simp [Res.isPanic, Res.isOk]
   | panic p => simp [Res.isPanic] at h
 
@@ -79,8 +80,10 @@ theorem safe_bind {α β} (m : P α) (f : α → P β) (hm : Good m) (hf : ∀ a
   have h := hm s hs
   rcases hms : m s with ⟨r, s'⟩
   rw [hms] at h
+  dsimp only
+  rw [hms]
   cases r with
-  | ok a => simpa using hf a s' (h.2 rfl)
+  | ok a => exact hf a s' (h.2 rfl)
   | err e => simp [Res.isPanic]
   | panic p => simp [Res.isPanic] at h
 
@@ -108,5 +111,657 @@ theorem good_recursionChecked {α} (f : P α) (hf : Safe f) : Good (recursionChe
   · simp only [h1, if_false]
     have := hf { s with depth := s.depth - 1 } (by simp; omega)
     exact ⟨this, fun _ => by simp⟩
+
+/-! ### the primitive readers -/
+
+theorem good_takeN (n : Nat) : Good (takeN n) :=
+  good_of_depth_eq _ (fun s => (takeN_depth n s).1) (fun s => (takeN_depth n s).2)
+
+theorem readChunks_depth (major : Nat) : ∀ (fuel : Nat) (acc : Bytes) (s : St),
+    (readChunks major fuel acc s).1.isPanic = false ∧ (readChunks major fuel acc s).2.depth = s.depth
+  | 0, _, s => by simp [readChunks, P.fail, Res.isPanic]
+  | fuel+1, acc, s => by
+    unfold readChunks
+    cases hi : s.inp with
+    | nil => simp [Res.isPanic]
+    | cons b rest =>
+      dsimp only
+      by_cases h255 : b.toNat = 255
+      · simp [h255, Res.isPanic]
+      · simp only [h255, if_false]
+        by_cases hm : b.toNat / 32 = major ∧ b.toNat % 32 < 28
+        · simp only [hm, and_self, if_true]
+          have ha := readArg_depth (b.toNat % 32) { s with inp := rest }
+          rcases h1 : readArg (b.toNat % 32) { s with inp := rest } with ⟨r, s2⟩
+          rw [h1] at ha
+          cases r with
+          | ok len =>
+            dsimp only
+            have ht := takeN_depth len s2
+            rcases h2 : takeN len s2 with ⟨r2, s3⟩
+            rw [h2] at ht
+            cases r2 with
+            | ok chunk =>
+              dsimp only
+              have := readChunks_depth major fuel (acc ++ chunk) s3
+              simp_all
+            | err e => simp_all [Res.isPanic]
+            | panic p => simp_all [Res.isPanic]
+          | err e => simp_all [Res.isPanic]
+          | panic p => simp_all [Res.isPanic]
+        · simp [hm, Res.isPanic]
+
+theorem good_readChunks (major fuel : Nat) (acc : Bytes) : Good (readChunks major fuel acc) :=
+  good_of_depth_eq _ (fun s => (readChunks_depth major fuel acc s).1) (fun s => (readChunks_depth major fuel acc s).2)
+
+theorem good_reject {α} (h : Head) : Good (reject h : P α) := by
+  cases h with
+  | bytes len =>
+    apply good_of_depth_eq
+    · intro s; unfold reject; have := takeN_depth len s
+      rcases h1 : takeN len s with ⟨r, s'⟩; rw [h1] at this; cases r <;> simp_all [Res.isPanic]
+    · intro s; unfold reject; have := takeN_depth len s
+      rcases h1 : takeN len s with ⟨r, s'⟩; rw [h1] at this; cases r <;> simp_all [Res.isPanic]
+  | text len =>
+    apply good_of_depth_eq
+    · intro s; unfold reject; have := takeN_depth len s
+      rcases h1 : takeN len s with ⟨r, s'⟩; rw [h1] at this
+      cases r <;> simp_all [Res.isPanic] <;> split <;> first | rfl | (rename_i heq; split at heq <;> cases heq)
+    · intro s; unfold reject; have := takeN_depth len s
+      rcases h1 : takeN len s with ⟨r, s'⟩; rw [h1] at this; cases r <;> simp_all [Res.isPanic]
+  | bytesI =>
+    apply good_of_depth_eq
+    · intro s; unfold reject; have := readChunks_depth 2 (s.inp.length + 1) [] s
+      rcases h1 : readChunks 2 (s.inp.length + 1) [] s with ⟨r, s'⟩; rw [h1] at this; cases r <;> simp_all [Res.isPanic]
+    · intro s; unfold reject; have := readChunks_depth 2 (s.inp.length + 1) [] s
+      rcases h1 : readChunks 2 (s.inp.length + 1) [] s with ⟨r, s'⟩; rw [h1] at this; cases r <;> simp_all [Res.isPanic]
+  | textI =>
+    apply good_of_depth_eq
+    · intro s; unfold reject; have := readChunks_depth 3 (s.inp.length + 1) [] s
+      rcases h1 : readChunks 3 (s.inp.length + 1) [] s with ⟨r, s'⟩; rw [h1] at this
+      cases r <;> simp_all [Res.isPanic] <;> split <;> first | rfl | (rename_i heq; split at heq <;> cases heq)
+    · intro s; unfold reject; have := readChunks_depth 3 (s.inp.length + 1) [] s
+      rcases h1 : readChunks 3 (s.inp.length + 1) [] s with ⟨r, s'⟩; rw [h1] at this; cases r <;> simp_all [Res.isPanic]
+  | array n => exact good_recursionChecked _ (good_fail .type).safe
+  | arrayI => exact good_recursionChecked _ (good_fail .type).safe
+  | map n => exact good_recursionChecked _ (good_fail .type).safe
+  | mapI => exact good_recursionChecked _ (good_fail .type).safe
+  | uint n => exact fun s hs => ⟨rfl, fun h => by simp [reject, Res.isOk] at h⟩
+  | nint n => exact fun s hs => ⟨rfl, fun h => by simp [reject, Res.isOk] at h⟩
+  | tag n => exact fun s hs => ⟨rfl, fun h => by simp [reject, Res.isOk] at h⟩
+  | bool b => exact fun s hs => ⟨rfl, fun h => by simp [reject, Res.isOk] at h⟩
+  | unit => exact fun s hs => ⟨rfl, fun h => by simp [reject, Res.isOk] at h⟩
+  | float => exact fun s hs => ⟨rfl, fun h => by simp [reject, Res.isOk] at h⟩
+
+theorem good_parseWith {α} (k : Head → P α) (hk : ∀ h, Good (k h)) : ∀ fuel, Good (parseWith k fuel)
+  | 0 => good_fail .other
+  | fuel+1 => by
+    intro s hs
+    unfold parseWith
+    have hh := readHead_depth s
+    rcases h1 : readHead s with ⟨r, s1⟩
+    rw [h1] at hh
+    have hd : 1 ≤ s1.depth := by simp at hh; omega
+    cases r with
+    | ok h =>
+      cases h with
+      | tag n => exact good_recursionChecked _ (good_parseWith k hk fuel).safe s1 hd
+      | uint n => exact hk _ s1 hd
+      | nint n => exact hk _ s1 hd
+      | bytes n => exact hk _ s1 hd
+      | bytesI => exact hk _ s1 hd
+      | text n => exact hk _ s1 hd
+      | textI => exact hk _ s1 hd
+      | array n => exact hk _ s1 hd
+      | arrayI => exact hk _ s1 hd
+      | map n => exact hk _ s1 hd
+      | mapI => exact hk _ s1 hd
+      | bool b => exact hk _ s1 hd
+      | unit => exact hk _ s1 hd
+      | float => exact hk _ s1 hd
+    | err e => simp [Res.isPanic, Res.isOk]
+    | panic p => simp [Res.isPanic] at hh
+
+/-! ### typed readers -/
+
+theorem good_kUint (bound : Nat) (h : Head) : Good (kUint bound h) := by
+  cases h with
+  | uint n =>
+    by_cases hb : n < bound
+    · simp only [kUint, hb, if_true]; exact good_pure _
+    · simp only [kUint, hb, if_false]; exact good_fail _
+  | nint n => exact good_reject _
+  | bytes n => exact good_reject _
+  | bytesI => exact good_reject _
+  | text n => exact good_reject _
+  | textI => exact good_reject _
+  | array n => exact good_reject _
+  | arrayI => exact good_reject _
+  | map n => exact good_reject _
+  | mapI => exact good_reject _
+  | tag n => exact good_reject _
+  | bool b => exact good_reject _
+  | unit => exact good_reject _
+  | float => exact good_reject _
+
+theorem good_readU64 : Good readU64 := good_parseWith _ (good_kUint _) _
+theorem good_readU32 : Good readU32 := good_parseWith _ (good_kUint _) _
+theorem good_readU8 : Good readU8 := good_parseWith _ (good_kUint _) _
+
+theorem good_kBool (h : Head) : Good (kBool h) := by
+  cases h <;> first | exact good_pure _ | exact good_reject _
+theorem good_readBool : Good readBool := good_parseWith _ good_kBool _
+
+/-- post-processing of a successful `takeN` / `readChunks` by a panic-free function -/
+theorem good_post {α β} (m : P α) (hm : Good m) (g : α → Res β) (hg : ∀ a, (g a).isPanic = false) :
+    Good (fun s => match m s with
+      | (.ok b, s') => (g b, s')
+      | (.err e, s') => (.err e, s')
+      | (.panic p, s') => (.panic p, s')) := good_map m g hg hm
+
+theorem utf8_res_nopanic (b : Bytes) (e : Err) : (if validUtf8 b = true then Res.ok b else Res.err e).isPanic = false := by
+  split <;> rfl
+
+theorem good_kString (h : Head) : Good (kString h) := by
+  cases h with
+  | text len =>
+    intro s hs
+    simp only [kString]
+    have h := good_takeN len s hs
+    rcases h1 : takeN len s with ⟨r, s'⟩
+    rw [h1] at h
+    cases r with
+    | ok b => dsimp only; split <;> simp_all [Res.isPanic, Res.isOk]
+    | err e => simp [Res.isPanic, Res.isOk]
+    | panic p => simp [Res.isPanic] at h
+  | bytes len =>
+    intro s hs
+    simp only [kString]
+    have h := good_takeN len s hs
+    rcases h1 : takeN len s with ⟨r, s'⟩
+    rw [h1] at h
+    cases r with
+    | ok b => dsimp only; split <;> simp_all [Res.isPanic, Res.isOk]
+    | err e => simp [Res.isPanic, Res.isOk]
+    | panic p => simp [Res.isPanic] at h
+  | textI =>
+    intro s hs
+    simp only [kString]
+    have h := good_readChunks 3 (s.inp.length + 1) [] s hs
+    rcases h1 : readChunks 3 (s.inp.length + 1) [] s with ⟨r, s'⟩
+    rw [h1] at h
+    cases r with
+    | ok b => dsimp only; split <;> simp_all [Res.isPanic, Res.isOk]
+    | err e => simp [Res.isPanic, Res.isOk]
+    | panic p => simp [Res.isPanic] at h
+  | bytesI =>
+    intro s hs
+    simp only [kString]
+    have h := good_readChunks 2 (s.inp.length + 1) [] s hs
+    rcases h1 : readChunks 2 (s.inp.length + 1) [] s with ⟨r, s'⟩
+    rw [h1] at h
+    cases r with
+    | ok b => dsimp only; split <;> simp_all [Res.isPanic, Res.isOk]
+    | err e => simp [Res.isPanic, Res.isOk]
+    | panic p => simp [Res.isPanic] at h
+  | uint n => exact good_reject _
+  | nint n => exact good_reject _
+  | array n => exact good_reject _
+  | arrayI => exact good_reject _
+  | map n => exact good_reject _
+  | mapI => exact good_reject _
+  | tag n => exact good_reject _
+  | bool b => exact good_reject _
+  | unit => exact good_reject _
+  | float => exact good_reject _
+theorem good_readString : Good readString := good_parseWith _ good_kString _
+
+/-! ### sequences -/
+
+theorem good_nextElem {α} (rd : P α) (hrd : Good rd) (acc : Acc) : Good (nextElem rd acc) := by
+  intro s hs
+  unfold nextElem
+  cases acc with
+  | none =>
+    dsimp only
+    cases hi : s.inp with
+    | nil => simp [Res.isPanic, Res.isOk]
+    | cons b rest =>
+      dsimp only
+      by_cases h255 : b.toNat = 255
+      · simp only [h255, if_true]; exact ⟨rfl, fun _ => hs⟩
+      · simp only [h255, if_false]
+        have h := hrd s hs
+        rcases h1 : rd s with ⟨r, s'⟩
+        rw [h1] at h
+        cases r <;> simp_all [Res.isPanic, Res.isOk]
+  | some n =>
+    cases n with
+    | zero => exact ⟨rfl, fun _ => hs⟩
+    | succ n =>
+      dsimp only
+      have h := hrd s hs
+      rcases h1 : rd s with ⟨r, s'⟩
+      rw [h1] at h
+      cases r <;> simp_all [Res.isPanic, Res.isOk]
+
+theorem good_reqElem {α} (rd : P α) (hrd : Good rd) (acc : Acc) : Good (reqElem rd acc) := by
+  intro s hs
+  unfold reqElem
+  have h := good_nextElem rd hrd acc s hs
+  rcases h1 : nextElem rd acc s with ⟨r, s'⟩
+  rw [h1] at h
+  cases r with
+  | ok v =>
+    obtain ⟨o, acc'⟩ := v
+    cases o <;> simp_all [Res.isPanic, Res.isOk]
+  | err e => simp [Res.isPanic, Res.isOk]
+  | panic p => simp [Res.isPanic] at h
+
+theorem seqEnd_nopanic (acc : Acc) (s : St) : (seqEnd acc s).1.isPanic = false := by
+  unfold seqEnd
+  cases acc with
+  | none =>
+    cases hi : s.inp with
+    | nil => rfl
+    | cons b rest => dsimp only; split <;> rfl
+  | some n => cases n <;> rfl
+
+/-- a visitor-only reader: safe visitor ⇒ good reader -/
+theorem good_kSeq {α} (visit : Acc → P (α × Acc)) (hv : ∀ acc, Safe (visit acc)) (h : Head) : Good (kSeq visit h) := by
+  have body : ∀ acc0, Safe (fun s =>
+      match visit acc0 s with
+      | (.ok (a, acc), s') =>
+        (match seqEnd acc s' with
+         | (.ok _, s'') => (.ok a, s'')
+         | (.err e, s'') => (.err e, s'')
+         | (.panic p, s'') => (.panic p, s''))
+      | (.err e, s') => (.err e, s')
+      | (.panic p, s') => (.panic p, s')) := by
+    intro acc0 s hs
+    have h := hv acc0 s hs
+    dsimp only
+    rcases h1 : visit acc0 s with ⟨r, s'⟩
+    rw [h1] at h
+    cases r with
+    | ok v =>
+      obtain ⟨a, acc⟩ := v
+      dsimp only
+      have := seqEnd_nopanic acc s'
+      rcases h2 : seqEnd acc s' with ⟨r2, s''⟩
+      rw [h2] at this
+      cases r2 <;> simp_all [Res.isPanic]
+    | err e => rfl
+    | panic p => simp [Res.isPanic] at h
+  cases h with
+  | array len => exact good_recursionChecked _ (body (some len))
+  | arrayI => exact good_recursionChecked _ (body none)
+  | uint n => exact good_reject _
+  | nint n => exact good_reject _
+  | bytes n => exact good_reject _
+  | bytesI => exact good_reject _
+  | text n => exact good_reject _
+  | textI => exact good_reject _
+  | map n => exact good_reject _
+  | mapI => exact good_reject _
+  | tag n => exact good_reject _
+  | bool b => exact good_reject _
+  | unit => exact good_reject _
+  | float => exact good_reject _
+
+theorem good_readSeq {α} (visit : Acc → P (α × Acc)) (hv : ∀ acc, Safe (visit acc)) : Good (readSeq visit) :=
+  good_parseWith _ (good_kSeq visit hv) _
+
+theorem good_collectElems {α} (rd : P α) (hrd : Good rd) : ∀ fuel (out : List α) (acc : Acc), Good (collectElems rd fuel out acc)
+  | 0, _, _ => good_fail .other
+  | fuel+1, out, acc => by
+    intro s hs
+    unfold collectElems
+    have h := good_nextElem rd hrd acc s hs
+    rcases h1 : nextElem rd acc s with ⟨r, s'⟩
+    rw [h1] at h
+    cases r with
+    | ok v =>
+      obtain ⟨o, acc'⟩ := v
+      cases o with
+      | some a => exact good_collectElems rd hrd fuel (out ++ [a]) acc' s' (h.2 rfl)
+      | none => exact ⟨rfl, fun _ => h.2 rfl⟩
+    | err e => simp [Res.isPanic, Res.isOk]
+    | panic p => simp [Res.isPanic] at h
+
+/-! ### byte buffers, nested decoding -/
+
+theorem safe_u8seq (acc : Acc) : Safe (fun s =>
+      match collectElems readU8 (s.inp.length + 1) [] acc s with
+      | (.ok (ns, acc'), s') => (.ok (ns.map UInt8.ofNat, acc'), s')
+      | (.err e, s') => (.err e, s')
+      | (.panic p, s') => (.panic p, s') : P (Bytes × Acc)) := by
+  intro s hs
+  have h := good_collectElems readU8 good_readU8 (s.inp.length + 1) [] acc s hs
+  dsimp only
+  rcases h1 : collectElems readU8 (s.inp.length + 1) [] acc s with ⟨r, s'⟩
+  rw [h1] at h
+  cases r with
+  | ok v => rfl
+  | err e => rfl
+  | panic p => simp [Res.isPanic] at h
+
+theorem good_kByteBuf (h : Head) : Good (kByteBuf h) := by
+  cases h with
+  | bytes len => exact good_takeN len
+  | bytesI => intro s hs; exact good_readChunks 2 _ [] s hs
+  | text len =>
+    intro s hs
+    simp only [kByteBuf]
+    have h := good_takeN len s hs
+    rcases h1 : takeN len s with ⟨r, s'⟩
+    rw [h1] at h
+    cases r with
+    | ok b => dsimp only; split <;> simp_all [Res.isPanic, Res.isOk]
+    | err e => simp [Res.isPanic, Res.isOk]
+    | panic p => simp [Res.isPanic] at h
+  | textI =>
+    intro s hs
+    simp only [kByteBuf]
+    have h := good_readChunks 3 (s.inp.length + 1) [] s hs
+    rcases h1 : readChunks 3 (s.inp.length + 1) [] s with ⟨r, s'⟩
+    rw [h1] at h
+    cases r with
+    | ok b => dsimp only; split <;> simp_all [Res.isPanic, Res.isOk]
+    | err e => simp [Res.isPanic, Res.isOk]
+    | panic p => simp [Res.isPanic] at h
+  | array len => exact good_kSeq _ safe_u8seq (.array len)
+  | arrayI => exact good_kSeq _ safe_u8seq .arrayI
+  | uint n => exact good_reject _
+  | nint n => exact good_reject _
+  | map n => exact good_reject _
+  | mapI => exact good_reject _
+  | tag n => exact good_reject _
+  | bool b => exact good_reject _
+  | unit => exact good_reject _
+  | float => exact good_reject _
+
+theorem good_readByteBuf : Good readByteBuf := good_parseWith _ good_kByteBuf _
+
+theorem fromSlice_nopanic {α} (rd : P α) (hrd : Good rd) (b : Bytes) : (fromSlice rd b).isPanic = false := by
+  unfold fromSlice
+  have h := hrd { inp := b, depth := 128 } (by show 1 ≤ 128; decide)
+  rcases h1 : rd { inp := b, depth := 128 } with ⟨r, s⟩
+  rw [h1] at h
+  cases r with
+  | ok a => dsimp only; split <;> rfl
+  | err e => rfl
+  | panic p => simp [Res.isPanic] at h
+
+/-! ### the crate's visitors -/
+
+theorem good_pair (rd : P Nat) (hrd : Good rd) (acc : Acc) : Good (fun s =>
+      match reqElem rd acc s with
+      | (.ok (a, acc1), s1) =>
+        (match reqElem rd acc1 s1 with
+         | (.ok (b, acc2), s2) => (.ok ((a, b), acc2), s2)
+         | (.err e, s2) => (.err e, s2)
+         | (.panic p, s2) => (.panic p, s2))
+      | (.err e, s1) => (.err e, s1)
+      | (.panic p, s1) => (.panic p, s1) : P ((Nat × Nat) × Acc)) := by
+  intro s hs
+  have h := good_reqElem rd hrd acc s hs
+  dsimp only
+  rcases h1 : reqElem rd acc s with ⟨r, s1⟩
+  rw [h1] at h
+  cases r with
+  | ok v =>
+    obtain ⟨a, acc1⟩ := v
+    dsimp only
+    have h2 := good_reqElem rd hrd acc1 s1 (h.2 rfl)
+    rcases h3 : reqElem rd acc1 s1 with ⟨r2, s2⟩
+    rw [h3] at h2
+    cases r2 with
+    | ok w => obtain ⟨b, acc2⟩ := w; exact ⟨rfl, fun _ => h2.2 rfl⟩
+    | err e => simp [Res.isPanic, Res.isOk]
+    | panic p => simp [Res.isPanic] at h2
+  | err e => simp [Res.isPanic, Res.isOk]
+  | panic p => simp [Res.isPanic] at h
+
+theorem good_visitPairU64 (acc : Acc) : Good (visitPairU64 acc) := good_pair readU64 good_readU64 acc
+theorem good_readPairU64 : Good readPairU64 := good_readSeq _ (fun acc => (good_visitPairU64 acc).safe)
+
+theorem good_visitPairU8 (acc : Acc) : Good (visitPairU8 acc) := by
+  unfold visitPairU8
+  apply good_bind' _ _ (good_reqElem readU8 good_readU8 acc)
+  rintro ⟨a, acc1⟩
+  apply good_bind' _ _ (good_reqElem readU8 good_readU8 acc1)
+  rintro ⟨b, acc2⟩
+  exact good_pure _
+
+/-- `EndpointIDVisitor::visit_seq`: after the swallowed error no further read happens -/
+theorem safe_visitEid (acc : Acc) : Safe (visitEid acc) := by
+  intro s hs
+  unfold visitEid
+  have h := good_reqElem readU8 good_readU8 acc s hs
+  rcases h1 : reqElem readU8 acc s with ⟨r, s1⟩
+  rw [h1] at h
+  cases r with
+  | ok v =>
+    obtain ⟨code, acc1⟩ := v
+    dsimp only
+    have hd := h.2 rfl
+    by_cases hc1 : code = 1
+    · simp only [hc1, if_true]
+      have h2 := good_nextElem readString good_readString acc1 s1 hd
+      rcases h3 : nextElem readString acc1 s1 with ⟨r2, s2⟩
+      rw [h3] at h2
+      cases r2 with
+      | ok w =>
+        obtain ⟨o, acc2⟩ := w
+        cases o <;> rfl
+      | err e => rfl
+      | panic p => simp [Res.isPanic] at h2
+    · simp only [hc1, if_false]
+      by_cases hc2 : code = 2
+      · simp only [hc2, if_true]
+        have h2 := good_reqElem readPairU64 good_readPairU64 acc1 s1 hd
+        rcases h3 : reqElem readPairU64 acc1 s1 with ⟨r2, s2⟩
+        rw [h3] at h2
+        cases r2 with
+        | ok w =>
+          obtain ⟨⟨node, svc⟩, acc2⟩ := w
+          dsimp only
+          by_cases hn : node ≥ 1 <;> simp [withIpn, hn, Res.isPanic]
+        | err e => rfl
+        | panic p => simp [Res.isPanic] at h2
+      · simp [hc2, Res.isPanic]
+  | err e => rfl
+  | panic p => simp [Res.isPanic] at h
+
+theorem good_readEid : Good readEid := good_readSeq _ safe_visitEid
+
+theorem good_visitCrc (code : Nat) (acc : Acc) : Good (visitCrc code acc) := by
+  intro s hs
+  unfold visitCrc
+  by_cases h0 : code = 0
+  · simp only [h0, if_true]; exact ⟨rfl, fun _ => hs⟩
+  · simp only [h0, if_false]
+    by_cases h1 : code = 1
+    · simp only [h1, if_true]
+      have h := good_reqElem readByteBuf good_readByteBuf acc s hs
+      rcases h3 : reqElem readByteBuf acc s with ⟨r, s'⟩
+      rw [h3] at h
+      cases r with
+      | ok w =>
+        obtain ⟨b, acc'⟩ := w
+        dsimp only
+        split <;> simp_all [Res.isPanic, Res.isOk]
+      | err e => simp [Res.isPanic, Res.isOk]
+      | panic p => simp [Res.isPanic] at h
+    · simp only [h1, if_false]
+      by_cases h2 : code = 2
+      · simp only [h2, if_true]
+        have h := good_reqElem readByteBuf good_readByteBuf acc s hs
+        rcases h3 : reqElem readByteBuf acc s with ⟨r, s'⟩
+        rw [h3] at h
+        cases r with
+        | ok w =>
+          obtain ⟨b, acc'⟩ := w
+          dsimp only
+          split <;> simp_all [Res.isPanic, Res.isOk]
+        | err e => simp [Res.isPanic, Res.isOk]
+        | panic p => simp [Res.isPanic] at h
+      · simp only [h2, if_false]; exact ⟨rfl, fun _ => hs⟩
+
+theorem good_ite {α} (c : Prop) [Decidable c] (a b : P α) (ha : Good a) (hb : Good b) : Good (if c then a else b) := by
+  split <;> assumption
+
+theorem safe_ite {α} (c : Prop) [Decidable c] (a b : P α) (ha : Safe a) (hb : Safe b) : Safe (if c then a else b) := by
+  split <;> assumption
+
+theorem safe_visitPrimary (acc : Acc) : Safe (visitPrimary acc) := by
+  unfold visitPrimary
+  apply safe_bind' _ _ (good_reqElem readU32 good_readU32 acc); rintro ⟨version, acc⟩
+  apply safe_bind' _ _ (good_reqElem readU64 good_readU64 acc); rintro ⟨flags, acc⟩
+  apply safe_bind' _ _ (good_reqElem readU8 good_readU8 acc); rintro ⟨crcType, acc⟩
+  apply safe_bind' _ _ (good_reqElem readEid good_readEid acc); rintro ⟨dst, acc⟩
+  apply safe_bind' _ _ (good_reqElem readEid good_readEid acc); rintro ⟨src, acc⟩
+  apply safe_bind' _ _ (good_reqElem readEid good_readEid acc); rintro ⟨rpt, acc⟩
+  apply safe_bind' _ _ (good_reqElem readPairU64 good_readPairU64 acc); rintro ⟨⟨ts, seq⟩, acc⟩
+  apply safe_bind' _ _ (good_reqElem readU64 good_readU64 acc); rintro ⟨lifetime, acc⟩
+  dsimp only
+  apply safe_bind'
+  · apply good_ite
+    · apply good_bind' _ _ (good_reqElem readU64 good_readU64 acc); rintro ⟨o, acc1⟩
+      apply good_bind' _ _ (good_reqElem readU64 good_readU64 acc1); rintro ⟨t, acc2⟩
+      exact good_pure _
+    · exact good_pure _
+  · rintro ⟨⟨fragOff, total⟩, acc⟩
+    apply safe_bind' _ _ (good_visitCrc crcType acc); rintro ⟨crc, acc⟩
+    exact (good_pure _).safe
+
+theorem good_readPrimary : Good readPrimary := good_readSeq _ safe_visitPrimary
+
+theorem map_nopanic {α β} (r : Res α) (f : α → β) (h : r.isPanic = false) : (r.map f).isPanic = false := by
+  cases r <;> simp_all [Res.map, Res.bind, Res.isPanic]
+
+theorem decodeBtsd_nopanic (btype : Nat) (raw : Bytes) : (decodeBtsd btype raw).isPanic = false := by
+  unfold decodeBtsd
+  by_cases h1 : btype = PAYLOAD_BLOCK
+  · simp [h1, Res.isPanic]
+  · by_cases h7 : btype = BUNDLE_AGE_BLOCK
+    · simp only [h1, h7, if_true, if_false]
+      exact map_nopanic _ _ (fromSlice_nopanic readU64 good_readU64 raw)
+    · by_cases h10 : btype = HOP_COUNT_BLOCK
+      · simp only [h1, h7, h10, if_true, if_false]
+        exact map_nopanic _ _ (fromSlice_nopanic (readSeq visitPairU8) (good_readSeq _ (fun acc => (good_visitPairU8 acc).safe)) raw)
+      · by_cases h6 : btype = PREVIOUS_NODE_BLOCK
+        · simp only [h1, h7, h10, h6, if_true, if_false]
+          exact map_nopanic _ _ (fromSlice_nopanic readEid good_readEid raw)
+        · simp [h1, h7, h10, h6, Res.isPanic]
+
+theorem good_liftRes {α} (r : Res α) (h : r.isPanic = false) : Good (liftRes r) := by
+  intro s hs
+  cases r with
+  | ok a => exact ⟨rfl, fun _ => hs⟩
+  | err e => simp [liftRes, Res.isPanic, Res.isOk]
+  | panic p => simp [Res.isPanic] at h
+
+theorem safe_visitCanon (acc : Acc) : Safe (visitCanon acc) := by
+  unfold visitCanon
+  apply safe_bind' _ _ (good_reqElem readU64 good_readU64 acc); rintro ⟨btype, acc⟩
+  apply safe_bind' _ _ (good_reqElem readU64 good_readU64 acc); rintro ⟨num, acc⟩
+  apply safe_bind' _ _ (good_reqElem readU8 good_readU8 acc); rintro ⟨flags, acc⟩
+  apply safe_bind' _ _ (good_reqElem readU8 good_readU8 acc); rintro ⟨crcType, acc⟩
+  apply safe_bind' _ _ (good_reqElem readByteBuf good_readByteBuf acc); rintro ⟨raw, acc⟩
+  apply safe_bind' _ _ (good_liftRes _ (decodeBtsd_nopanic btype raw)); intro data
+  apply safe_bind' _ _ (good_visitCrc crcType acc); rintro ⟨crc, acc⟩
+  exact (good_pure _).safe
+
+theorem good_readCanon : Good readCanon := good_readSeq _ safe_visitCanon
+
+theorem safe_visitBundle (acc : Acc) : Safe (visitBundle acc) := by
+  intro s hs
+  unfold visitBundle
+  have h := good_reqElem readPrimary good_readPrimary acc s hs
+  rcases h1 : reqElem readPrimary acc s with ⟨r, s1⟩
+  rw [h1] at h
+  cases r with
+  | ok v =>
+    obtain ⟨primary, acc1⟩ := v
+    dsimp only
+    have h2 := good_collectElems readCanon good_readCanon (s1.inp.length + 1) [] acc1 s1 (h.2 rfl)
+    rcases h3 : collectElems readCanon (s1.inp.length + 1) [] acc1 s1 with ⟨r2, s2⟩
+    rw [h3] at h2
+    cases r2 with
+    | ok w => rfl
+    | err e => rfl
+    | panic p => simp [Res.isPanic] at h2
+  | err e => rfl
+  | panic p => simp [Res.isPanic] at h
+
+theorem good_readBundle : Good readBundle := good_readSeq _ safe_visitBundle
+
+/-- **C06 (decoder).** For every byte string, decoding returns a bundle or an error, never a
+    panic: in particular serde_cbor's depth counter is never decremented below zero, although
+    it is not restored on the "recursion limit exceeded" path and that error can be swallowed. -/
+theorem decode_no_panic (bs : Bytes) : (decodeBundle bs).isPanic = false :=
+  fromSlice_nopanic readBundle good_readBundle bs
+
+/-- every result is a bundle or an error -/
+theorem decode_total (bs : Bytes) : (∃ b, decodeBundle bs = .ok b) ∨ (∃ e, decodeBundle bs = .err e) := by
+  have := decode_no_panic bs
+  cases h : decodeBundle bs with
+  | ok b => exact Or.inl ⟨b, rfl⟩
+  | err e => exact Or.inr ⟨e, rfl⟩
+  | panic p => simp [h, Res.isPanic] at this
+
+/-- the payload decoded as an administrative record: no panic either -/
+theorem decode_admin_no_panic (bs : Bytes) : (decodeAdmin bs).isPanic = false := by
+  have hitem : ∀ acc, Safe (visitItem acc) := by
+    intro acc
+    unfold visitItem
+    apply safe_bind' _ _ (good_reqElem readBool good_readBool acc); rintro ⟨asserted, acc⟩
+    apply safe_ite
+    · apply safe_bind' _ _ (good_reqElem readU64 good_readU64 acc); rintro ⟨time, acc⟩
+      exact (good_pure _).safe
+    · exact (good_pure _).safe
+  have gitem : Good readItem := good_readSeq _ hitem
+  have gitems : Good readItems :=
+    good_readSeq _ (fun acc s hs => (good_collectElems readItem gitem (s.inp.length + 1) [] acc s hs).1)
+  have hrep : ∀ acc, Safe (visitReport acc) := by
+    intro acc
+    unfold visitReport
+    apply safe_bind' _ _ (good_reqElem readItems gitems acc); rintro ⟨items, acc⟩
+    apply safe_bind' _ _ (good_reqElem readU32 good_readU32 acc); rintro ⟨reason, acc⟩
+    apply safe_bind' _ _ (good_reqElem readEid good_readEid acc); rintro ⟨source, acc⟩
+    apply safe_bind' _ _ (good_reqElem readPairU64 good_readPairU64 acc); rintro ⟨⟨ts, seq⟩, acc⟩
+    dsimp only
+    apply safe_ite
+    · apply safe_bind' _ _ (good_reqElem readU64 good_readU64 acc); rintro ⟨fo, acc⟩
+      apply safe_bind' _ _ (good_reqElem readU64 good_readU64 acc); rintro ⟨fl, acc⟩
+      exact (good_pure _).safe
+    · exact (good_pure _).safe
+  have grep : Good readReport := good_readSeq _ hrep
+  have hadm : ∀ acc, Safe (visitAdmin acc) := by
+    intro acc
+    unfold visitAdmin
+    apply safe_bind' _ _ (good_reqElem readU32 good_readU32 acc); rintro ⟨code, acc⟩
+    apply safe_ite
+    · apply safe_bind' _ _ (good_reqElem readReport grep acc); rintro ⟨sr, acc⟩
+      exact (good_pure _).safe
+    · apply safe_bind' _ _ (good_reqElem readByteBuf good_readByteBuf acc); rintro ⟨data, acc⟩
+      exact (good_pure _).safe
+  exact fromSlice_nopanic readAdmin (good_readSeq _ hadm) bs
+
+/-! ### what the pinned tree did on decoded input (witnesses; all fixed, see known_findings.txt) -/
+
+/-- F12: a dtn ssp without slashes made `node()` panic -/
+theorem pinned_node_name_panics : dtnNodeNamePinned (asc "abc") = .panic .nodeName := by decide
+/-- now: the empty node name, and validation rejects the endpoint ID -/
+example : dtnNodeName (asc "abc") = [] ∧ eidOk (.dtn 1 (asc "abc")) = false := by decide
+
+/-- the depth counter really is left one too low after a swallowed "recursion limit" error, and
+    the next sibling is then rejected (not a panic): 124 tags, then bundle, primary, a dtn EID
+    whose ssp is itself tagged -/
+example :
+    (decodeBundle (List.replicate 124 0xc1 ++ [0x9f, 0x88, 7, 0, 0, 0x82, 1, 0xc1, 0x00, 0x82, 1, 0, 0x82, 1, 0, 0x82, 0, 0, 0, 0xff])).isErr
+      = true := by decide +kernel
 
 end Bp7.C06
